@@ -27,12 +27,13 @@ pub const LITERALS: &[&str] = &[
     "1/2", "-1/2", "1/0", "3/-4", "1/", "2147483647/2", "1/4294967295", "1/4294967296", "6/4", "1e", "1e400", "1e5",
     "1.5", "-0.0", ".5", "-.", "+.5", "-.5e", "1.e2", "1.5e-3", "#t", "#f", "#true", "#\\a", "#\\(", "#\\", "#\\space",
     "\"str\"", "\"a\\nb\"", "\"\\x41;\"", "\"\\q\"", "\"(\"", "\"", "'", "`", ",", ",@", ".", "#(", "#u8(", "#u", "#",
+    "\"\\xD800;\"", "\"a\\xdfff;b\"", "\"\\x110000;\"", "\"\\xFFFFFFFFFF;\"", "\"\\x;\"", "\"\\x41\"", "#\\xD800", "#\\x110000", "#\\x41", "|\\xD800;|",
     "|", "|a b|", "'()", "'(1 2 3)", "'(1 . 2)", "'#(1 2)", "#(1 2)", "()", "(1 . 2)", "(a . b)",
 ];
 
 pub const NAMES: &[&str] = &["x", "y", "z", "f", "g", "h", "lst", "vec", "n", "k", "acc", "temp", "m"];
 
-pub const LIBNAMES: &[&str] = &["(scheme base)", "(scheme write)", "(ruschm base)", "(foo)", "(foo bar)", "(scheme)", "(1 2)", "()"];
+pub const LIBNAMES: &[&str] = &["(scheme base)", "(scheme write)", "(ruschm base)", "(foo)", "(foo bar)", "(scheme)", "(1 2)", "()", "(..)", "(foo ..)", "(foo /)", "(/)", "(foo.v2)", "(foo . bar)", "(|| a)", "(foo |a/b|)"];
 
 /// form templates: $E expression, $N name, $T any token, $S several expressions, $F formals, $I import set
 pub const TEMPLATES: &[&str] = &[
